@@ -164,3 +164,5 @@ def run(chk):
         src = render(lp["body"]).replace(" ", "")
         chk.shape("R5", "declare-when-missing", "ifmissing_lt{" in src and "impl_gens.params.push(" in src, "impl_gens.params.push(" not in src, EXPAND, lp["line"], "a missing lifetime must be added to the impl generics", found=src[-160:])
     chk.guard("R5", r5)
+    from .c05 import import_lookup_contracts
+    chk.guard("R6", lambda: import_lookup_contracts(chk, "R6", ["where_attr"], with_chain=False))
